@@ -134,6 +134,36 @@ func (c *Ctx) c07Vec(zeroBias bool) stl.Vec {
 	return stl.Vec{X: c.c07Word(), Y: c.c07Word(), Z: c.c07Word()}
 }
 
+// header classes: the 80 header bytes of a binary STL are free-form; real tools write text there
+var c07HeaderTexts = []string{"solid part1", "solid OpenSCAD_Model", " solid x", "\t  solid  y", "solid", "SOLID x", "Solid Edge",
+	"Solidworks 2021 binary STL", "COLOR=\x10\x20\x30\xff,MATERIAL=\x01\x02\x03\x04", "STLB ATF 8.0.0.0 COLOR=\xa0\xa0\xa0\xff",
+	"binary stl written by verif", "solid a\nfacet normal 0 0 1", "so\x00lid", "solid\x00\x00name", "\x00solid", "endsolid", "facet"}
+
+func (c *Ctx) c07Header() (h stl.Header) {
+	switch c.Rng.Intn(6) {
+	case 0: // all zero (what WriteMesh writes)
+		c.Note("header.zero")
+	case 1:
+		c.Rng.Read(h[:])
+		c.Note("header.random")
+	case 2: // 80 blanks
+		for i := range h {
+			h[i] = ' '
+		}
+		c.Note("header.blanks")
+	case 3: // text padded with blanks
+		for i := range h {
+			h[i] = ' '
+		}
+		copy(h[:], c07HeaderTexts[c.Rng.Intn(len(c07HeaderTexts))])
+		c.Note("header.text-blank-padded")
+	default: // text padded with NUL
+		copy(h[:], c07HeaderTexts[c.Rng.Intn(len(c07HeaderTexts))])
+		c.Note("header.text-nul-padded")
+	}
+	return h
+}
+
 func (c *Ctx) c07Size() int {
 	switch c.Rng.Intn(10) {
 	case 0:
@@ -151,9 +181,7 @@ func (c *Ctx) c07Size() int {
 
 func (c *Ctx) c07Binary() stl.Binary {
 	var b stl.Binary
-	if c.Rng.Intn(4) != 0 {
-		c.Rng.Read(b.Header[:])
-	}
+	b.Header = c.c07Header()
 	n := c.c07Size()
 	b.Triangles = make([]stl.Triangle, n)
 	for i := range b.Triangles {
@@ -338,6 +366,10 @@ func (c *Ctx) c07WellFormed() []byte {
 	n := c.c07Size()
 	bs := make([]byte, 84+50*n)
 	c.Rng.Read(bs)
+	if c.Rng.Intn(3) != 0 {
+		h := c.c07Header()
+		copy(bs[:80], h[:])
+	}
 	binary.LittleEndian.PutUint32(bs[80:], uint32(n))
 	// bias some records towards zero normals / special words
 	for i := 0; i < n; i++ {
@@ -399,6 +431,7 @@ func (c *Ctx) c07ResaveMesh(bs []byte) {
 // fallback of ReadMesh, checked against the geometric statement itself
 func (c *Ctx) c07TameFile() {
 	var b stl.Binary
+	b.Header = c.c07Header()
 	n := 1 + c.Rng.Intn(6)
 	b.Triangles = make([]stl.Triangle, n)
 	v := func() stl.Vec {
@@ -419,9 +452,7 @@ func (c *Ctx) c07TameFile() {
 		c.Emit("c07.holds.geometric_fallback", hx(buf.Bytes())+" "+c07Mesh(*back), "true")
 	}
 	// same file with a non-zero header and attribute words through ReadMesh → WriteMesh
-	if c.Rng.Intn(2) == 0 {
-		c.Rng.Read(b.Header[:])
-	}
+	b.Header = c.c07Header()
 	for i := range b.Triangles {
 		if c.Rng.Intn(2) == 0 {
 			b.Triangles[i].Attribute = uint16(1 + c.Rng.Intn(65535))
@@ -616,6 +647,7 @@ func (c *Ctx) c07BigCase(n int, withNormals bool) {
 	c.Emit("c07.holds.reencode", hx(bs)+" "+out, "true")
 	// byte level: a binary with n tagged records
 	var b stl.Binary
+	copy(b.Header[:], c07HeaderTexts[n%len(c07HeaderTexts)])
 	b.Triangles = make([]stl.Triangle, n)
 	for i := range b.Triangles {
 		f := float32(i + 1)
@@ -633,6 +665,40 @@ func (c *Ctx) c07BigCase(n int, withNormals bool) {
 }
 
 func runC07(c *Ctx) {
+	for _, txt := range c07HeaderTexts { // every header text once, NUL- and blank-padded
+		for pad := 0; pad < 2; pad++ {
+			var b stl.Binary
+			if pad == 1 {
+				for i := range b.Header {
+					b.Header[i] = ' '
+				}
+			}
+			copy(b.Header[:], txt)
+			b.Triangles = []stl.Triangle{{Normal: stl.Vec{Z: 1}, Vertex1: stl.Vec{}, Vertex2: stl.Vec{X: 1}, Vertex3: stl.Vec{Y: 1}, Attribute: 3}}
+			var buf bytes.Buffer
+			if err := stl.Write(&buf, b); err != nil {
+				continue
+			}
+			bs := buf.Bytes()
+			c.Emit("c07.write", c07Bin(b, false), hx(bs))
+			c.Emit("c07.read", hx(bs), c07ReadAns(bs))
+			ans, _ := c07ReadMeshAns(bs)
+			c.Emit("c07.readmesh", hx(bs), ans)
+			c.c07ResaveMesh(bs)
+			out := Guard(func() string {
+				rb, err := stl.Read(bytes.NewReader(bs))
+				if err != nil {
+					return "err"
+				}
+				var o bytes.Buffer
+				if err := stl.Write(&o, *rb); err != nil {
+					return "err"
+				}
+				return hx(o.Bytes())
+			})
+			c.Emit("c07.holds.reencode", hx(bs)+" "+out, "true")
+		}
+	}
 	{
 		sizes := []int{81, 82, 1310, 1311, 4095, 4096, 4097, 8192}
 		if c.Tier == "thorough" {
